@@ -190,7 +190,9 @@ class RustBlockingAsyncAnalyzer(RustBaseAnalyzer):
         """
         for child in call_node.children:
             if child.type == "scoped_identifier":
-                return self.extract_node_text(child)
+                return self.extract_node_text(child).removeprefix("::")  # ::std::fs::read
+            if child.type == "generic_function":  # std::fs::read::<&str>(..)
+                return self._extract_call_path(child)
         return ""
 
 
